@@ -9,6 +9,7 @@ import (
 	ws "github.com/gorilla/websocket"
 
 	"verif/internal/core"
+	"verif/internal/gen"
 	"verif/internal/wire"
 	"verif/internal/xport"
 )
@@ -40,8 +41,9 @@ func init() {
 			}
 			return c09SeqQuick + 600
 		},
-		Run:      runC09,
-		Required: []string{"closes_sent", "calls_after_close_checked", "close_inside_open_message", "concurrent_runs", "histories_linearizable"},
+		Run:          runC09,
+		BeatTimeoutS: 150,
+		Required:     []string{"closes_sent", "calls_after_close_checked", "close_inside_open_message", "concurrent_runs", "histories_linearizable", "close_sequences_after_a_failed_write"},
 		Assumptions: []string{
 			"every close position of each generated program x every close path is enumerated; programs are sampled",
 			"schedules of the concurrent family are sampled (gate-forced windows + free-running goroutines), not enumerated",
@@ -97,9 +99,65 @@ func runC09(ctx *core.Ctx, out *core.Out) {
 			return
 		}
 	}
+	if !c09AfterFailedWrite(ctx, out, cfg, prog, desc) {
+		return
+	}
 	if ctx.Idx%50 == 0 {
 		out.Sample(map[string]interface{}{"case": desc, "close_positions": positions + 1, "close_paths": closePathNames})
 	}
+}
+
+// c09AfterFailedWrite: history "an earlier transport write failed" (the transport works
+// again afterwards), then closes through several paths one after the other. Whether any
+// close frame can still be written is C10's business; C09's invariant is checked on the
+// wire as it stands: if a close frame is there, it is the last thing written.
+func c09AfterFailedWrite(ctx *core.Ctx, out *core.Out, cfg Cfg, prog []WStep, desc rtCase) bool {
+	r := gen.For(ctx.Seed, "c09/afterfault", ctx.Idx)
+	nc := xport.New(nil)
+	nc.EndErr = xport.ErrClosed
+	nc.Counted = func(k xport.OpKind) bool { return k == xport.OpWrite }
+	nc.FaultAt = map[int]xport.FaultKind{r.Intn(4): []xport.FaultKind{xport.FaultErr, xport.FaultTimeout}[r.Intn(2)]}
+	c := newConn(nc, cfg, &TrackPool{}, 0)
+	w := NewWriter(c, cfg)
+	w.RunProgram(prog)
+	if nc.FaultsHit == 0 {
+		return true
+	}
+	peer := func(f wire.Frame) {
+		f.Masked = cfg.Server
+		f.Key = [4]byte{1, 2, 3, 4}
+		nc.Feed(xport.Chunk{Data: wire.Append(nil, f)})
+	}
+	order := []int{0, 1, 2, 3}
+	for i := 3; i > 0; i-- {
+		j := r.Intn(i + 1)
+		order[i], order[j] = order[j], order[i]
+	}
+	for _, k := range order {
+		switch k {
+		case 0:
+			c.WriteControl(ws.CloseMessage, ws.FormatCloseMessage(1000, "first"), time.Time{})
+		case 1:
+			c.WriteMessage(ws.CloseMessage, ws.FormatCloseMessage(1001, "second"))
+		case 2:
+			peer(wire.Frame{Fin: true, Op: 8, Payload: wire.MkClose(4000, "peer")})
+			c.NextReader()
+		default:
+			if pm, err := ws.NewPreparedMessage(ws.CloseMessage, ws.FormatCloseMessage(1000, "prepared")); err == nil {
+				c.WritePreparedMessage(pm)
+			}
+		}
+	}
+	c.WriteMessage(1, []byte("after"))
+	out.Count("close_sequences_after_a_failed_write", 1)
+	frames, rest, _ := wire.Decode(nc.Written())
+	for i, f := range frames {
+		if f.Op == 8 && (i+1 < len(frames) || len(rest) > 0) {
+			out.Violate("C09:bytes-after-close", fmt.Sprintf("after an earlier failed transport write: a close frame (frame %d of %d) is followed by more bytes on the transport", i, len(frames)), map[string]interface{}{"case": desc, "frames": framesDesc(frames, 16), "close_order": order})
+			return false
+		}
+	}
+	return true
 }
 
 // hookMarshaler runs fn while WriteJSON is between its NextWriter and its Close.
